@@ -133,6 +133,11 @@ def run(prog, chk):
         chk.floor("R6.2", "longer-before-shorter operator pairs", ordered, 8)
 
     removal_rules(prog, chk)
+    unit_rules(prog, chk)
+    chk.rule("R6.8", "every yes/no test `is this an associative/indexed array` in brush_core answers yes for the declared-but-unassigned kind "
+                     "(ShellValue::Unset(kind)) as well — reads, writes and `${m[k]:=w}` agree on how a subscript is evaluated")
+    nk = array_kind_agreement(prog, chk, "R6.8", {"brush_core"}, "`declare -A m; : ${m[key]:=v}` evaluates `key` arithmetically and stores the value under 0")
+    chk.floor("R6.8", "array-kind decisions in brush_core", nk, 4)
 
     # ---- R6.1 scoped inventory ------------------------------------------------------------------------
     chk.rule("R6.1", "operator implementations: every panic-capable construct (overflow / bounds / index / unwrap) is guarded, reviewed, "
@@ -315,3 +320,106 @@ def removal_rules(prog, chk, R3="R6.3", R4="R6.4", declare=True):
                 chk.fail(R4, fn, "empty-candidate-missing:" + tag,
                          "%s never tests the empty %s: a pattern that matches the empty string (`*`, `?(x)`) removes one character instead of nothing" % (fn, side))
     chk.floor(R3, "removal operators resolved to functions", len(role), 4)
+
+
+def unit_rules(prog, chk):
+    """R6.5: lengths and slices use the same unit. `${v:o:l}` slices by characters (Chars::skip/take in polymorphic_subslice), so the
+    length that `${#v}` prints and that negative offsets are measured against must be counted in characters too: the length functions of
+    ExpansionPiece / WordField count `chars()`, they do not return str::len (bytes).
+    R6.6: `${v@u}` upper-cases the first character of the value only (bash); its arm must not reach a per-word capitaliser (a loop that
+    tests char::is_whitespace)."""
+    chk.rule("R6.5", "the expansion length functions count characters (Chars … count), the unit polymorphic_subslice slices in; no str::len / String::len of piece text")
+    lens = [b for b in prog.all_bodies({"brush_core"}) if owner(b.name) in ("brush_core::expansion::ExpansionPiece::len",)]
+    sub = prog.body("brush_core::expansion::Expansion::polymorphic_subslice")
+    if chk.anchor("R6.5", "Expansion::polymorphic_subslice", sub) and chk.anchor("R6.5", "ExpansionPiece::len", lens[0] if lens else None):
+        slices_by_chars = any((t.best_callee() or "").endswith(("Chars as core::iter::traits::iterator::Iterator>::count", "Iterator::skip", "Iterator::take")) or
+                              "str::iter::Chars" in (t.best_callee() or "") for _, t in sub.calls())
+        for b in lens:
+            cals = [(t.best_callee() or t.callee or "") for _, t in b.calls()]
+            counts_chars = any("Chars" in c and c.endswith("count") for c in cals) or any(c.endswith("str::chars") for c in cals)
+            bytes_len = [c for c in cals if c in ("alloc::string::String::len", "str::len")]
+            if slices_by_chars and counts_chars and not bytes_len:
+                chk.ok("R6.5", "length-in-characters", "ExpansionPiece::len counts chars(); polymorphic_subslice slices with Chars iterators", function=b.name)
+            else:
+                chk.fail("R6.5", b.name, "length-in-bytes-slice-in-characters",
+                         "ExpansionPiece::len returns %s while polymorphic_subslice slices by characters: for multi-byte values `${#v}` is too large and offsets "
+                         "from the end (`${v: -2}`, `${v:0:-1}`) land on the wrong characters" % (bytes_len or "a length not derived from chars()"))
+    chk.rule("R6.6", "${v@u} upper-cases only the first character: its arm does not reach a per-word capitaliser")
+    tb = prog.impl_body("brush_core::expansion::WordExpander::apply_transform_to")
+    if chk.anchor("R6.6", "WordExpander::apply_transform_to", tb):
+        sws = enum_switches(prog, tb, "brush_parser::word::ParameterTransformOp")
+        arm = None
+        for sbb, m, other, rest, _ in sws:
+            if "CapitalizeInitial" in m:
+                arm = arm_regions(tb, sbb, dict(m)).get("CapitalizeInitial")
+        if arm is None:
+            chk.fail("R6.6", tb.name, "arm-missing", "no CapitalizeInitial arm in apply_transform_to")
+        else:
+            bad = None
+            for bb in arm:
+                t = tb.blocks[bb].term
+                if t.kind != "call":
+                    continue
+                cal = t.best_callee() or ""
+                if cal.endswith("char::is_whitespace"):
+                    bad = "the arm itself"
+                cb = prog.body(cal)
+                if cb is not None and cb.crate in SHIPPED and any((t2.best_callee() or "").endswith("char::is_whitespace") for _, t2 in cb.calls()) and cfg_of(cb).source_loops():
+                    bad = cal
+            if bad:
+                chk.fail("R6.6", tb.name, "capitalizes-every-word", "the ${v@u} arm goes through %s, which restarts capitalisation after every whitespace: `v='a b c'` gives `A B C` (bash: `A b c`)" % bad)
+            else:
+                chk.ok("R6.6", "first-character-only", "no whitespace-driven loop behind the CapitalizeInitial arm", function=tb.name)
+
+
+SVAL = "brush_core::variables::ShellValue"
+SUNSET = "brush_core::variables::ShellValueUnsetType"
+
+
+def array_kind_agreement(prog, chk, rid, crates, what):
+    """A variable declared `-A` (or `-a`) but not yet assigned is ShellValue::Unset(AssociativeArray | IndexedArray). Every yes/no
+    decision "is this an associative (indexed) array" — a `matches!` on the ShellValue discriminant whose AssociativeArray (IndexedArray)
+    arm yields true — must answer yes for the matching Unset kind too; the sites that do (ShellValue::is_associative_array, the
+    subscript handling of reads, writes and assignments) are the reference, a site that answers no is the deviant (Engler-style
+    contradiction). Returns the number of decisions examined."""
+    from rulelib import resolve_bool_arm
+    n = 0
+    for b in prog.all_bodies(crates):
+        sws = enum_switches(prog, b, SVAL)
+        if not sws:
+            continue
+        c = cfg_of(b)
+
+        def const_bool(bb):
+            x = bb
+            for _ in range(5):
+                for st in b.blocks[x].stmts:
+                    if st.kind == 'a' and st.place.is_local() and st.rv.kind == 'use' and st.rv.ops[0].const is not None \
+                            and st.rv.ops[0].const.value in (0, 1) and b.local_ty(st.place.local) == "bool":
+                        return st.rv.ops[0].const.value
+                t = b.blocks[x].term
+                if t.kind != "goto":
+                    return None
+                x = t.target
+            return None
+        for sbb, m, other, rest, place in sws:
+            for kind in ("AssociativeArray", "IndexedArray"):
+                if kind not in m or const_bool(m[kind]) != 1:
+                    continue
+                # only pure kind tests: the other array kind answers false
+                n += 1
+                fn = owner(b.name)
+                un = m.get("Unset", other)
+                nested = [x for x in enum_switches(prog, b, SUNSET) if x[0] == un or (un is not None and c.dominates(un, x[0]) and x[0] in c.reachable_from(un))]
+                ans = None
+                for nsbb, nm, nother, nrest, _ in nested:
+                    tgt = nm.get(kind, nother)
+                    ans = const_bool(tgt) if tgt is not None else None
+                if ans == 1:
+                    chk.ok(rid, "unset-%s-counts@%s:%s" % (kind, short(fn), b.blocks[sbb].term.line // 1000), "Unset(%s) answers like %s" % (kind, kind), function=fn)
+                else:
+                    chk.fail(rid, fn, "unset-%s-not-counted" % kind,
+                             "%s decides `is %s` with a test that says no for a variable declared with that kind but not assigned yet (Unset(%s)) at %s, while "
+                             "ShellValue::is_associative_array and the subscript handling of reads and assignments say yes: %s"
+                             % (fn, kind, kind, b.loc(b.blocks[sbb].term.line), what))
+    return n
